@@ -84,6 +84,7 @@ type histOp struct {
 	Call   uint64
 	Ret    uint64
 	Ok     bool
+	Err    string
 }
 
 func (e *Engine) Execute(p *sim.Plan, keepLog bool) (res *sim.RunResult) {
@@ -264,7 +265,7 @@ func (e *Engine) Execute(p *sim.Plan, keepLog bool) (res *sim.RunResult) {
 					if opId != "" {
 						acked[opId] = id
 					}
-					record(histOp{Client: wi, Bug: id, Kind: "append", OpId: opId, Call: call, Ret: ret, Ok: err == nil})
+					record(histOp{Client: wi, Bug: id, Kind: "append", OpId: opId, Call: call, Ret: ret, Ok: err == nil, Err: fmt.Sprint(err)})
 				case "commit", "commit-as-needed":
 					id := pickBug()
 					touch(id, wi)
@@ -347,7 +348,7 @@ func (e *Engine) Execute(p *sim.Plan, keepLog bool) (res *sim.RunResult) {
 	if keepLog {
 		res.Trace = append(res.Trace, "schedule: "+strings.Join(dec, " "))
 		for _, h := range hist {
-			res.Trace = append(res.Trace, fmt.Sprintf("w%d %s bug=%s op=%.7s seen=%d call=%d ret=%d ok=%v", h.Client, h.Kind, h.Bug[:7], h.OpId, len(h.Seen), h.Call, h.Ret, h.Ok))
+			res.Trace = append(res.Trace, fmt.Sprintf("w%d %s bug=%s op=%.7s seen=%d call=%d ret=%d ok=%v %s", h.Client, h.Kind, h.Bug[:7], h.OpId, len(h.Seen), h.Call, h.Ret, h.Ok, sim.Trunc(h.Err, 120)))
 		}
 	}
 	if sched.Stuck != "" {
@@ -382,6 +383,24 @@ func (e *Engine) Execute(p *sim.Plan, keepLog bool) (res *sim.RunResult) {
 	}
 	sort.Strings(idList)
 	finalErr := map[string]error{}
+	// the goroutines are done: before anything else touches the cache, the excerpt every query,
+	// listing and the cache file are served from must describe the live state of its bug (whatever
+	// is still staged included). Resolving does not refresh an excerpt.
+	for _, id := range idList {
+		b, err := c.Bugs().Resolve(entity.Id(id))
+		if err != nil {
+			continue // judged below
+		}
+		ex, err := c.Bugs().ResolveExcerpt(entity.Id(id))
+		if err != nil {
+			continue
+		}
+		snap := b.Snapshot()
+		if ex.Title != snap.Title || ex.Status != snap.Status || ex.LenComments != len(snap.Comments) || len(ex.Labels) != len(snap.Labels) {
+			add("cache-differs-from-rebuild", "cache size %d: bug %s after the workers finished: the excerpt (title %q, status %v, %d comments, %d labels) is not the one of the bug's state (title %q, status %v, %d comments, %d labels)",
+				p.CfgInt("cache_size", 1000), id[:7], ex.Title, ex.Status, ex.LenComments, len(ex.Labels), snap.Title, snap.Status, len(snap.Comments), len(snap.Labels))
+		}
+	}
 	// the closing commits run under the scheduler too: an entity lock that is never released
 	// would otherwise hang the simulator instead of being reported
 	fin := newScheduler(sim.NewRand(1), 1)
@@ -389,7 +408,9 @@ func (e *Engine) Execute(p *sim.Plan, keepLog bool) (res *sim.RunResult) {
 	fin.run([]func(){func() {
 		for _, id := range idList {
 			b, err := c.Bugs().Resolve(entity.Id(id))
-			if err == nil {
+			if err == nil && b.NeedCommit() {
+				// only bugs with staged operations: CommitAsNeeded refreshes the excerpt even
+				// when there is nothing to commit, which would repair a stale one behind our back
 				err = b.CommitAsNeeded()
 			}
 			if err != nil {
